@@ -1,4 +1,4 @@
-SERVED = ["C03", "C06", "C08", "C13", "C14", "C16", "C17", "C18", "C19", "C20"]
+SERVED = ["C03", "C06", "C07", "C08", "C13", "C14", "C16", "C17", "C18", "C19", "C20"]
 HOOKS = {
     "guard": "PSYCHEC_VERIF",
     "enable": "harness/Makefile compiles /repo's sources with -DPSYCHEC_VERIF into /verif/.cache/build-<flavour>/; "
@@ -141,5 +141,16 @@ CHECKS = {
         "note": "Trusted: Coq kernel; C06Model.v (tied by C06's correspondence); the harness' recording SyntaxDumper subclass. Whole-language losslessness is correspondence over a corpus, "
                 "i.e. sampling. Print Assumptions: closed under the global context.",
         "technique": "Coq proof (token preservation of the modelled expression parser, all inputs) + corpus-wide parse/unparse/re-lex/re-parse correspondence",
+    },
+    "C07": {
+        "text": "Theorem C07_declarator_type (induction over declarators incl. the declarators of parameters, any nesting depth): for every declarator — pointers with any qualifier lists, arrays, "
+                "functions with named/unnamed/variadic parameters whose declarators nest again, redundant parentheses — in ordinary and parameter context and over any specifier type, the model of "
+                "the binder's type-stack machine names the symbol and gives it exactly the type C11 6.7.6 spells (with the 6.7.6.3p7-8 adjustment and decay flags), and pops back to exactly the "
+                "specifier type; C07_multi: several declarators of one declaration are typed independently; C07_parens_irrelevant.  The hand-written machine is tied to the code by comparing the "
+                "bound symbol's type on random declarations in file, block, field, parameter and typedef context (1,500 quick / 20,000 thorough).",
+        "design_ref": "DESIGN.md section 6, C07",
+        "note": "Trusted: Coq kernel; hand transcription C07Model.v (types as values: mutation of a FunctionType through sharing modelled as construction); the reading of 6.7.6 as ctype_of; "
+                "extraction; harness. Typedef-name/declarator ambiguities such as `T (x)` and `(T)` are kept out of the generator (C04/C09). Print Assumptions: closed under the global context.",
+        "technique": "Coq proof by structural induction over declarators (stack-machine invariant) + model/implementation correspondence on generated declarations",
     },
 }
